@@ -22,8 +22,10 @@ LEVEL_TEXT = ('Real slimta Queue on dict, disk (pyaio), redis (redis-py vs in-pr
               'permanent failures and unexpected exceptions, with backoff tables that end in exhaustion, 1..4 '
               'recipients, 1..3 concurrent messages, empty senders, bounded/unbounded pools and gated storage '
               'calls; the disposition ledger is checked once every timer has been run down (bounded progress). '
-              'A second stratum runs the real SMTP and LMTP relays (with their connection pools) behind the '
-              'probe against a scripted next hop (pipe/HTTP relay outcomes are judged by C11). Held = held on the '
+              'A second stratum runs the real SMTP and LMTP relays (with their connection pools) against a scripted '
+              'next hop, and the real pipe relay (per-recipient or not) running a real delivery program with planned '
+              'exit status / output / signal death / overrun of the shared timeout, behind the probe (HTTP relay '
+              'outcomes are judged by C11). Held = held on the '
               'histories reported.')
 LEVEL_NOTE = ('Trusted: virtual clock shim, scripted relay probe (it is the witness of what the relay reported), '
               'backend doubles (MiniRedis, MemObjectStore), quiescence detection. Liveness is restated as bounded '
@@ -62,14 +64,17 @@ def gen_cases(tier, seed, shard, nshards):
             yield {'cfg': cfg, 'seed': rnd.randrange(1 << 40)}
     # real relay kinds (SMTP / LMTP clients with their connection pool) behind the probe,
     # talking to the scripted next hop: what the Queue acts on is what the real relay reported
-    nreal = (96 if tier == 'quick' else 6000) // nshards
+    nreal = (180 if tier == 'quick' else 9000) // nshards
     for i in range(max(1, nreal)):
         cfg = {'backend': rnd.choice(['dict', 'dict', 'disk', 'cloud', 'redis']),
-               'real_relay': rnd.choice(['smtp', 'lmtp']),
+               'real_relay': rnd.choice(['smtp', 'lmtp', 'pipe', 'pipe', 'pipe-one']),
                'backoffs': rnd.choice([[0, None], [0, 3, None], [2, 2, 2, None]]),
                'rcpts': (1, 4), 'nmsg': rnd.randint(1, 3), 'null_sender_p': 0.2,
                'relay_idle': rnd.choice([None, 0.5]), 'relay_pool_size': rnd.choice([None, 1, 2]),
+               'pipe_slow_p': rnd.choice([0.05, 0.15, 0.3]),
                'steps': 20}
+        if cfg['real_relay'] == 'pipe-one':
+            cfg['rcpts'] = (1, 1)      # documented use: behind a recipient-splitting policy
         yield {'cfg': cfg, 'seed': rnd.randrange(1 << 40)}
 
 
